@@ -604,6 +604,59 @@ class Program:
     def fid(self, f):
         return (f.unit.base, f.name)
 
+    def mods(self, caller, callee_name, _depth=0, _seen=None):
+        """Struct field names the callee may store (transitively); None = unknown (treat as everything).
+        External libc calls are assumed not to write fields of program structs, except block copies
+        into a struct object."""
+        if not hasattr(self, "_mods"):
+            self._mods = {}
+        g = self.resolve(caller, callee_name)
+        if g is None:
+            return set()
+        fid = self.fid(g)
+        if fid in self._mods:
+            return self._mods[fid]
+        _seen = _seen or set()
+        if fid in _seen or _depth > 8:
+            return None
+        _seen = _seen | {fid}
+        out = set()
+        for x in g.walk():
+            k = x["k"]
+            if k == "BinaryOperator" and x["op"] == "=" or k == "CompoundAssignOperator" or \
+                    (k == "UnaryOperator" and x["op"] in ("post++", "pre++", "post--", "pre--", "&")):
+                l = strip(x["c"][0])
+                while l is not None and l["k"] == "ArraySubscriptExpr":
+                    l = strip(l["c"][0])
+                if l is not None and l["k"] == "MemberExpr":
+                    out.add(l["n"])
+                elif l is not None and l["k"] == "UnaryOperator" and l["op"] == "*" and k != "UnaryOperator":
+                    t = (l.get("t") or "")
+                    if "struct" in t or t in self.records:
+                        out = None
+                        break
+            elif k == "CallExpr":
+                c = x.get("callee")
+                if c is None:
+                    out = None
+                    break
+                if c in ("memset", "memcpy", "memmove"):
+                    d = strip(x["c"][1])
+                    t = (d.get("t") or "") if d is not None else ""
+                    if not (t.replace("const ", "").startswith("char") or t.startswith("void") or t.startswith("unsigned char")
+                            or t.startswith("short") or t.startswith("unsigned short")):
+                        out = None
+                        break
+                    continue
+                sub = self.mods(g, c, _depth + 1, _seen)
+                if sub is None:
+                    out = None
+                    break
+                out |= sub
+        if _depth == 0 or out is not None:
+            self._mods[fid] = out
+        return out
+
     def by_fid(self, fid):
         return self.units[fid[0]].funcs[fid[1]]
 
